@@ -39,6 +39,9 @@ LineViol(line) ==
             \cup Mon(C17_FilterSound(line.log, o), "C17_FilterSound")
       [] line.k = "dec" ->
             Mon(C17_DecodeValid(o), "C17_DecodeValid")
+      [] line.k = "fetch" ->
+            Mon(C17_FetchNotHidden(line.defs, line.logs, o), "C17_FetchNotHidden")
+            \cup Mon(C17_FetchOnlyMatching(line.defs, line.logs, o), "C17_FetchOnlyMatching")
       [] OTHER -> {"C17_UnknownLine"}
 
 (* pass B *)
@@ -48,9 +51,16 @@ LineDrift(line, R) ==
     LET o == line.out
         d == line.def
     IN
-    Mon(d = ConcDef(line.desc.preds, R), "conc-def")
+    (IF line.k = "fetch" THEN {} ELSE Mon(d = ConcDef(line.desc.preds, R), "conc-def"))
     \cup
-    CASE line.k = "def" ->
+    CASE line.k = "fetch" ->
+            Mon(line.defs = [i \in DOMAIN line.desc.sets |-> ConcDef(line.desc.sets[i], R)], "conc-defs")
+            \cup Mon(line.logs = [j \in DOMAIN line.desc.logs |-> ConcLog(line.desc.logs[j], R)], "conc-logs")
+            \cup Mon(o.err = "" /\ o.fired = CFetchFired(line.defs, line.logs), "FetchEvents")
+            \cup Mon(\A i \in DOMAIN line.defs : \A j \in DOMAIN line.logs :
+                        LET m == IF CValid(line.defs[i]) THEN CMatch(line.defs[i], line.logs[j]) ELSE "skip" IN
+                        m = "blow" \/ o.pm[i][j] = m, "Match")
+      [] line.k = "def" ->
             Mon(o.valid = CValid(d), "Validate")
             \cup (IF EncodableDef(d)
                   THEN Mon(o.menc = "ok" /\ o.enc = CMarshal(d), "MarshalBytes")
@@ -73,7 +83,10 @@ LineDrift(line, R) ==
       [] OTHER -> {}
 
 (* vacuity counters: how often the monitors had something to decide *)
-Cnt0 == [semT |-> 0, semF |-> 0, semU |-> 0, filt |-> 0, rt |-> 0, decok |-> 0, decrej |-> 0, skipped |-> 0]
+Cnt0 == [semT |-> 0, semF |-> 0, semU |-> 0, filt |-> 0, rt |-> 0, decok |-> 0, decrej |-> 0, skipped |-> 0, fetch |-> 0, fired |-> 0]
+RECURSIVE SumSeq(_, _)
+SumSeq(sq, i) == IF i > Len(sq) THEN 0 ELSE sq[i] + SumSeq(sq, i + 1)
+FiredCount(o) == SumSeq([i \in DOMAIN o.fired |-> Cardinality({j \in DOMAIN o.fired[i] : o.fired[i][j]})], 1)
 Count(line, k) ==
     LET o == line.out IN
     CASE line.k = "def" -> IF o.valid THEN [k EXCEPT !.rt = @ + 1] ELSE k
@@ -84,6 +97,7 @@ Count(line, k) ==
                      k1 == IF d = "T" THEN [k EXCEPT !.semT = @ + 1]
                            ELSE IF d = "F" THEN [k EXCEPT !.semF = @ + 1] ELSE [k EXCEPT !.semU = @ + 1]
                  IN IF o.match = "true" THEN [k1 EXCEPT !.filt = @ + 1] ELSE k1
+      [] line.k = "fetch" -> [k EXCEPT !.fetch = @ + 1, !.fired = @ + FiredCount(o)]
       [] OTHER -> k
 
 TInit == l = 1 /\ rnd = DefaultR /\ viol = {} /\ drift = {} /\ cnt = Cnt0
